@@ -62,6 +62,16 @@ SKY_SPECS = [
                                              'lat': 10.001},
      'width': [30.0, 'arcsec'], 'height': [12.0, 'arcsec'],
      'angle': [70.0, 'deg', 'Quantity'], 'meta': {'text': 'box'}, 'visual': {}},
+    {'cls': 'TextSkyRegion', 'center': {'frame': 'fk5', 'lon': 30.003,
+                                        'lat': 10.002}, 'text': 'sky text',
+     'meta': {}, 'visual': {'rotation': 30, 'color': 'cyan'}},
+    {'cls': 'CircleAnnulusSkyRegion', 'center': {'frame': 'icrs', 'lon': 30.0,
+                                                 'lat': 10.0},
+     'inner_radius': [5.0, 'arcsec'], 'outer_radius': [0.3, 'arcmin'],
+     'meta': {'include': 0}, 'visual': {}},
+    {'cls': 'PointSkyRegion', 'center': {'frame': 'galactic', 'lon': 160.001,
+                                         'lat': -43.001},
+     'meta': {'text': 'pt'}, 'visual': {'marker': '+'}},
 ]
 WCS_SPECS = [
     {'proj': 'TAN', 'frame': 'icrs', 'crval': [30.0, 10.0], 'crpix': [10.0, 10.0],
@@ -101,6 +111,8 @@ def make_pool():
                                np.arange(12.0).reshape(3, 4)[::-1] + 1.5)],
             'image': [np.arange(20 * 24, dtype=float).reshape(20, 24),
                       (np.arange(15 * 15).reshape(15, 15) % 7).astype(np.int64)]}
+    # persistent mask objects (a leak between calls must be visible)
+    pool['mask'] = [pool['pix'][i].to_mask('center') for i in (0, 1, 3, 5)]
     shared = [S.build(dict(s, meta={'text': 'same', 'select': 1, 'fixed': 0,
                                     'source': 1},
                            visual={'linewidth': 2, 'linestyle': 'dashed',
@@ -170,6 +182,22 @@ def apply(pool, op):
             else:
                 res = m.to_image(img.shape)
             return [P[i], img], res
+        if name == 'mask_values':
+            m = pool['mask'][op[1] % len(pool['mask'])]
+            img = Im[0]
+            how = op[2] % 3
+            dm = None
+            if how == 1:
+                dm = (img % 3 == 0)
+            elif how == 2:
+                dm = (img % 2 == 1)
+            kind = op[3] % 3
+            if kind == 0:
+                return [m, img], m.get_values(img, mask=dm)
+            if kind == 1:
+                return [m, img], m.multiply(img, fill_value=float(how))
+            return [m, img], m.cutout(img, fill_value=float(how),
+                                      copy=bool(how))
         if name == 'to_sky':
             r, w = P[op[1] % len(P)], Wc[op[2] % len(Wc)]
             return [r, w], r.to_sky(w)
